@@ -85,7 +85,7 @@ func (in *Interp) symLoad(sp SymElemPtr) Val {
 		i := in.Concretize(sp.idx)
 		return copyVal(sp.cells[i])
 	}
-	if len(classes) <= 4 {
+	if len(classes) <= 40 {
 		// build an ite term instead of forking
 		var r *Term
 		for ci := len(classes) - 1; ci >= 0; ci-- {
